@@ -52,11 +52,14 @@ Unlock(t) == /\ pc[t] = "unlock" /\ holder = t /\ holder' = 0
              /\ pc' = [pc EXCEPT ![t] = "idle"] /\ UNCHANGED <<disk, buf, cur, pos>>
 
 Count(tag) == Cardinality({k \in 1..Len(disk) : disk[k] = tag})
-Contig(tag) == \A a, b \in 1..Len(disk) : (disk[a] = tag /\ disk[b] = tag /\ a < b) => \A k \in a..b : disk[k] = tag
+\* positions at which a new run of equal tags starts
+RunStarts == {a \in 1..Len(disk) : a = 1 \/ disk[a] # disk[a - 1]}
 \* once append has returned the complete record is in the file
 Durable == \A r \in acked : Count(<<r[1], r[2]>>) = r[3]
-NotInterleaved == \A k \in 1..Len(disk) : Contig(disk[k])
-ThreadOrder == \A a, b \in 1..Len(disk) : (a < b /\ disk[a][1] = disk[b][1] /\ disk[a][1] # 0) => disk[a][2] <= disk[b][2]
+\* every record's bytes are one contiguous run: no tag starts two runs
+\* (equivalent to: for all a < b with disk[a] = disk[b], everything between carries the same tag)
+NotInterleaved == Cardinality({disk[a] : a \in RunStarts}) = Cardinality(RunStarts)
+ThreadOrder == \A a, b \in RunStarts : (a < b /\ disk[a][1] = disk[b][1] /\ disk[a][1] # 0) => disk[a][2] <= disk[b][2]
 PrefixKept == AppendMode => (Len(disk) >= Pre /\ SubSeq(disk, 1, Pre) = PreBytes)
 TruncatedAtOpen == ~AppendMode => \A k \in 1..Len(disk) : disk[k] # <<0, 0>>
 \* the file is whole records, except possibly a prefix of the lock holder's record in flight
